@@ -181,7 +181,7 @@ def run(tier):
     recs = corpus.generate(rep, specs, mode="short", timeout=1500 if tier == "quick" else 3000)
     rep.exhaustive = True
     if tier == "quick":
-        keep = {"elementwise": 8, "get_at": 6, "id": 4, "update_at": 7, "preserve": 2, "argfind": 3}
+        keep = {"elementwise": 12, "get_at": 9, "id": 6, "update_at": 10, "preserve": 3, "argfind": 3}
         recs = [r for i, r in enumerate(recs) if i % keep.get(r["base"]["fam"], 1) == 0]
     OPS["ellscalar"] = ["id"]
     items = [{"base": r["base"], "pairs": r["pairs"], "ops": OPS[r["base"]["fam"]] if tier == "thorough" else [OPS[r["base"]["fam"]][i % len(OPS[r["base"]["fam"]])]],
